@@ -70,6 +70,9 @@ type built struct {
 	target    func(p int) logs.Loggers // nil: every producer logs through lg
 	closers   []logs.Loggers
 	appendFns []func() error // composite: the concurrent Append calls (one per Appends entry)
+	// extraAppend appends one more member which discards everything (it changes nothing the sinks see): called by several
+	// producers at once in the odd cases, so that Append meets Append, Log and the source setters from many sides
+	extraAppend func() error
 }
 
 const slowDelay = 300 * time.Microsecond
@@ -398,6 +401,16 @@ func (c Case) build() (*built, error) {
 		b.lg = b.multi
 		if err != nil {
 			break
+		}
+		if len(c.Appends) > 0 {
+			m := b.multi
+			b.extraAppend = func() error {
+				n, e := logs.NewNoopLogger("extra")
+				if e != nil {
+					return e
+				}
+				return m.Append(n)
+			}
 		}
 		for j, k := range c.Appends {
 			bit := j
